@@ -104,13 +104,6 @@ const ALL_TYPES: &[&str] =
 fn union_fields() -> arrow_schema::UnionFields {
     arrow_schema::UnionFields::try_new(vec![0, 1], vec![Field::new("a", DataType::Int32, true), Field::new("b", DataType::Utf8, true)]).unwrap()
 }
-fn map_field() -> Arc<Field> {
-    Arc::new(Field::new(
-        "entries",
-        DataType::Struct(Fields::from(vec![Field::new("keys", DataType::Utf8, false), Field::new("values", DataType::Int32, true)])),
-        false,
-    ))
-}
 fn ree_type() -> DataType {
     DataType::RunEndEncoded(Arc::new(Field::new("run_ends", DataType::Int32, false)), Arc::new(Field::new("values", DataType::Int32, true)))
 }
@@ -306,7 +299,7 @@ fn data_type_of(ty: &str) -> DataType {
         "dec" => DataType::Decimal128(20, 3),
         "llist" => DataType::LargeList(Arc::new(Field::new_list_field(DataType::Int32, true))),
         "lv" => DataType::ListView(Arc::new(Field::new_list_field(DataType::Int32, true))),
-        "map" => DataType::Map(map_field(), false),
+        "map" => MapBuilder::new(None, StringBuilder::new(), Int32Builder::new()).finish().data_type().clone(),
         "ree" => ree_type(),
         "sunion" => DataType::Union(union_fields(), arrow_schema::UnionMode::Sparse),
         "dunion" => DataType::Union(union_fields(), arrow_schema::UnionMode::Dense),
@@ -1006,6 +999,70 @@ fn run_phys(t: &[&str]) -> String {
                 }
             })
         }
+        "slices" => {
+            // C03 slices <moff> <mask>: SlicesIterator (raw value bits, validity ignored) + FilterPredicate::count
+            let (moff, mask) = (us(t[2]), parse_mask(t[3]));
+            guarded(move || {
+                let m = build_mask(&mask, moff);
+                let a: Vec<String> = arrow_select::filter::SlicesIterator::new(&m).map(|(s, e)| format!("{}:{}", s, e)).collect();
+                let b: Vec<String> = arrow_select::filter::SlicesIterator::from(m.values()).map(|(s, e)| format!("{}:{}", s, e)).collect();
+                assert_eq!(a, b);
+                format!("s={} c={}", show_list(&a), FilterBuilder::new(&m).optimize().build().count())
+            })
+        }
+        "prepmask" => {
+            // C03 prepmask <moff> <mask with at least one null>: prep_null_mask_filter
+            let (moff, mask) = (us(t[2]), parse_mask(t[3]));
+            guarded(move || {
+                let m = build_mask(&mask, moff);
+                if m.nulls().is_none() {
+                    return "NO-NULL-BUFFER".into();
+                }
+                let r = arrow_select::filter::prep_null_mask_filter(&m);
+                format!("{} nulls={}", show_bits(&r.values().iter().collect::<Vec<bool>>()), r.nulls().is_some() as u8)
+            })
+        }
+        "filternulls" => {
+            // C03 filternulls <variant> <validity bits|-> <moff> <mask>: FilterPredicate::filter_nulls
+            let (var, bits, moff, mask) = (us(t[2]), t[3].to_string(), us(t[4]), parse_mask(t[5]));
+            guarded(move || {
+                let m = build_mask(&mask, moff);
+                let p = if var % 2 == 0 { FilterBuilder::new(&m).build() } else { FilterBuilder::new(&m).optimize().build() };
+                let nb = if bits == "-" { None } else { Some(NullBuffer::from(parse_bits(&bits))) };
+                match p.filter_nulls(nb.as_ref()) {
+                    None => "-".into(),
+                    Some(n) => format!("{}/{}", show_bits(&n.iter().collect::<Vec<bool>>()), n.null_count()),
+                }
+            })
+        }
+        "gc" => {
+            // C03 gc <dict type> <off> <rows>: garbage_collect_any_dictionary
+            let (ty, off, rows) = (t[2].to_string(), us(t[3]), parse_rows(t[4]));
+            guarded(move || {
+                let a = build(&ty, &rows, off);
+                let d = a.as_any_dictionary();
+                // distinct value slots referenced by valid keys
+                let mut used: Vec<usize> = if d.values().is_empty() { vec![] } else { d.normalized_keys().iter().enumerate().filter(|(i, _)| d.keys().is_valid(*i)).map(|(_, k)| *k).collect() };
+                used.sort();
+                used.dedup();
+                match arrow_select::dictionary::garbage_collect_any_dictionary(d) {
+                    Ok(x) => {
+                        let n = x.as_any_dictionary().values().len();
+                        let untouched = used.len() == d.values().len();
+                        if n != used.len() && !untouched {
+                            return format!("BAD:GC-KEPT-{}-OF-{}-USED", n, used.len());
+                        }
+                        show_decoded(&ty, x.as_ref())
+                    }
+                    Err(e) => err_class(&e),
+                }
+            })
+        }
+        "slice" => {
+            // C03 slice <ty> <off> <rows> <start> <len>: Array::slice of an already sliced array
+            let (ty, off, rows, a0, len) = (t[2].to_string(), us(t[3]), parse_rows(t[4]), us(t[5]), us(t[6]));
+            guarded(move || show_decoded(&ty, build(&ty, &rows, off).slice(a0, len).as_ref()))
+        }
         "ree" => {
             // C03 ree <variant> <run_ends> <value rows> <off> <len> <moff> <mask>: filter a sliced RunArray<Int32, Int32>
             let (var, ends, vals, off, len, moff, mask) =
@@ -1031,7 +1088,7 @@ fn run_case(line: &str) -> String {
     let t: Vec<&str> = line.split(' ').collect();
     assert_eq!(t[0], "C03");
     match t[1] {
-        "bfilter" | "btake" | "bconcat" | "binterleave" | "fsbfilter" | "fsbtake" | "ree" | "dconcat" => run_phys(&t),
+        "bfilter" | "btake" | "bconcat" | "binterleave" | "fsbfilter" | "fsbtake" | "ree" | "dconcat" | "slices" | "prepmask" | "filternulls" | "gc" | "slice" => run_phys(&t),
         "filter" => {
             // C03 filter <ty> <variant> <off> <rows> <moff> <mask>
             let (ty, var, off, rows, moff, mask) = (t[2], us(t[3]), us(t[4]), parse_rows(t[5]), us(t[6]), parse_mask(t[7]));
@@ -1080,9 +1137,27 @@ fn run_case(line: &str) -> String {
             let r = guarded(move || {
                 let a = build(ty, &rows, off);
                 let ia = build_idx(ity, &idx, ioff);
-                match take(a.as_ref(), ia.as_ref(), Some(TakeOptions { check_bounds: check })) {
+                // entry points: take (ioff % 3 == 0), take_arrays over two columns (== 1),
+                // take_record_batch (== 2, it has no options: only used when check_bounds is off)
+                let ids = build("i32", &rows, 0);
+                let both_cols = |cols: &[ArrayRef]| -> Result<ArrayRef, ArrowError> {
+                    let x = show_decoded(ty, cols[0].as_ref());
+                    let y = show_decoded("i32", cols[1].as_ref());
+                    if x != y { Err(ArrowError::CastError(format!("BAD:COLUMNS-DIFFER:{}/{}", x, y))) } else { Ok(cols[0].clone()) }
+                };
+                let r = match ioff % 3 {
+                    1 => arrow_select::take::take_arrays(&[a.clone(), ids], ia.as_ref(), Some(TakeOptions { check_bounds: check })).and_then(|c| both_cols(&c)),
+                    2 if !check => {
+                        let schema = Arc::new(Schema::new(vec![Field::new("c0", data_type_of(ty), true), Field::new("c1", DataType::Int32, true)]));
+                        let b = RecordBatch::try_new(schema, vec![a.clone(), ids]).unwrap();
+                        arrow_select::take::take_record_batch(&b, ia.as_ref()).and_then(|b| both_cols(b.columns()))
+                    }
+                    _ => take(a.as_ref(), ia.as_ref(), Some(TakeOptions { check_bounds: check })),
+                };
+                match r {
                     Ok(x) => show_decoded(ty, x.as_ref()),
                     Err(ArrowError::ComputeError(_)) => "ERR:oob".into(),
+                    Err(ArrowError::CastError(m)) if m.starts_with("BAD:") => m,
                     Err(e) => err_class(&e),
                 }
             });
@@ -1162,6 +1237,10 @@ fn run_case(line: &str) -> String {
                 let (fa, fs) = operand(fa);
                 let f = if op == "zip" { zip } else { merge };
                 let r = match (ts, fs) {
+                    // second entry point for two scalars: the reusable ScalarZipper
+                    (true, true) if op == "zip" && mask.len() % 2 == 0 => {
+                        arrow_select::zip::ScalarZipper::try_new(&Scalar::new(ta), &Scalar::new(fa)).and_then(|z| z.zip(&m))
+                    }
                     (true, true) => f(&m, &Scalar::new(ta), &Scalar::new(fa)),
                     (true, false) => f(&m, &Scalar::new(ta), &fa),
                     (false, true) => f(&m, &ta, &Scalar::new(fa)),
@@ -1180,7 +1259,9 @@ fn run_case(line: &str) -> String {
                 let arrs = parse_arrs(ty, arrs);
                 let refs: Vec<&dyn Array> = arrs.iter().map(|a| a.as_ref()).collect();
                 let idx: Vec<Option<usize>> = if idx == "-" { vec![] } else { idx.split(',').map(|x| if x == "n" { None } else { Some(us(x)) }).collect() };
-                match merge_n(&refs, &idx) {
+                // MergeIndex for usize when there is no null index
+                let r = if idx.iter().all(|x| x.is_some()) { merge_n(&refs, &idx.iter().map(|x| x.unwrap()).collect::<Vec<usize>>()) } else { merge_n(&refs, &idx) };
+                match r {
                     Ok(x) => show_decoded(ty, x.as_ref()),
                     Err(e) => err_class(&e),
                 }
@@ -1235,6 +1316,23 @@ fn run_case(line: &str) -> String {
                                 c.push_batch_with_indices(b, ia.as_ref())
                             }
                             "x" => c.finish_buffered_batch(),
+                            "q" => {
+                                // accessors: is_empty / has_completed_batch / get_buffered_rows / limit / schema
+                                assert_eq!(c.schema(), schema);
+                                let _ = c.size();
+                                outs.push(format!(
+                                    "E{}C{}B{}L{}",
+                                    c.is_empty() as u8,
+                                    c.has_completed_batch() as u8,
+                                    c.get_buffered_rows(),
+                                    c.biggest_coalesce_batch_size().map(|l| l.to_string()).unwrap_or("-".into())
+                                ));
+                                Ok(())
+                            }
+                            "l" => {
+                                c.set_biggest_coalesce_batch_size(if f[1] == "-" { None } else { Some(us(f[1])) });
+                                Ok(())
+                            }
                             "n" => {
                                 outs.push(match c.next_completed_batch() {
                                     Some(b) => decode_batch(ty, &b),
@@ -1640,10 +1738,56 @@ fn gen_dconcat(rng: &mut Rng) -> (String, String) {
     (format!("C03 dconcat {} {} {} {}", kt, var, toks.join(";"), pairs), format!("op:dconcat dvar:{} kt:{} nt", var, kt))
 }
 
+fn gen_small_ops(rng: &mut Rng, ty: &str) -> (String, String) {
+    match rng.below(5) {
+        0 => {
+            let n = gen_len(rng).min(200);
+            let (mask, mtag) = gen_mask(rng, n);
+            (format!("C03 slices {} {}", gen_off(rng), show_mask(&mask)), format!("op:slices {} {}", mtag, if mask_nontrivial(&mask) { "nt" } else { "" }))
+        }
+        1 => {
+            let n = 1 + gen_len(rng).min(200);
+            let (mut mask, mtag) = gen_mask(rng, n);
+            let i = rng.usize(n);
+            mask[i] = None;
+            (format!("C03 prepmask {} {}", gen_off(rng), show_mask(&mask)), format!("op:prepmask {} nt", mtag))
+        }
+        2 => {
+            let n = 2 + gen_len(rng).min(150);
+            let (mut mask, mtag) = gen_mask(rng, n);
+            // filter_nulls is only reachable for a non-trivial selection
+            mask[0] = Some(true);
+            mask[1] = Some(false);
+            let extra = rng.usize(3);
+            let p = *rng.pick(&[0u64, 1, 5, 19]);
+            let bits: Vec<bool> = (0..n + extra).map(|_| rng.below(20) >= p).collect();
+            let tok = if rng.chance(1, 10) { "-".to_string() } else { show_bits(&bits) };
+            let var = rng.usize(2);
+            (format!("C03 filternulls {} {} {} {}", var, tok, gen_off(rng), show_mask(&mask)), format!("op:filternulls fvar:{} {} nt", var, mtag))
+        }
+        3 => {
+            let dty = *rng.pick(&["dict", "dicts", "dicti8", "dictu8", "dictu16", "dictu64", "dictp"]);
+            let n = gen_len(rng).min(120);
+            let (rows, ntag) = gen_rows(rng, dty, n);
+            (format!("C03 gc {} {} {}", dty, gen_off(rng), show_rows(&rows)), format!("op:gc ty:{} {} {}", dty, ntag, if n > 1 { "nt" } else { "" }))
+        }
+        _ => {
+            let n = gen_len(rng).min(120);
+            let (rows, ntag) = gen_rows(rng, ty, n);
+            let a = rng.usize(n + 1);
+            let len = if rng.bool() { n - a } else { rng.usize(n - a + 1) };
+            (format!("C03 slice {} {} {} {} {}", ty, gen_off(rng), show_rows(&rows), a, len), format!("op:slice ty:{} {} {}", ty, ntag, if a > 0 && len > 0 { "nt" } else { "" }))
+        }
+    }
+}
+
 fn gen_phys(rng: &mut Rng, ty: &str) -> (String, String) {
     let wide = rng.below(2);
     if rng.chance(1, 6) {
         return gen_dconcat(rng);
+    }
+    if rng.chance(1, 5) {
+        return gen_small_ops(rng, ty);
     }
     match rng.below(9) {
         0 | 1 => {
@@ -1826,7 +1970,7 @@ fn gen_take_oob(rng: &mut Rng, ty: &str) -> (String, String) {
 }
 
 fn gen_coalesce(rng: &mut Rng) -> (String, String) {
-    let ty = *rng.pick(&["i32", "i64", "sv", "utf8", "i32+utf8", "i32+i64", "i32+sv", "i32", "sv", "list", "dict", "dicti8", "dictu16", "dict"]);
+    let ty = *rng.pick(&["i32", "i64", "sv", "utf8", "i32+utf8", "i32+i64", "i32+sv", "i32", "sv", "list", "dict", "dicti8", "dictu16", "dict", "dec", "i32+dec", "dictp", "lv"]);
     let target = if rng.chance(1, 4) { *rng.pick(&[1usize, 2, 3, 8, 16, 17, 64, 70]) } else { 1 + rng.usize(70) };
     let (limit, ltag) = match rng.below(4) {
         0 => (Some(rng.usize(target + 1)), "limit:small"),
@@ -1888,6 +2032,18 @@ fn gen_coalesce(rng: &mut Rng) -> (String, String) {
                 ops.push("x".to_string());
                 tags.insert("cop:finish");
             }
+            10 if rng.chance(1, 3) => {
+                ops.push("q".to_string());
+                tags.insert("cop:query");
+            }
+            10 if rng.chance(1, 4) => {
+                ops.push(match rng.below(3) {
+                    0 => "l:-".to_string(),
+                    1 => format!("l:{}", rng.usize(target + 1)),
+                    _ => format!("l:{}", target + rng.usize(100)),
+                });
+                tags.insert("cop:set-limit");
+            }
             _ => {
                 ops.push("n".to_string());
                 tags.insert("cop:next");
@@ -1912,6 +2068,19 @@ fn answer_tags(line: &str, answer: &str) -> &'static str {
             return " take:oob-returned-ok";
         }
     }
+    let has_null_idx = |s: &str| s.split(',').any(|x| x.starts_with('n'));
+    if t.len() == 9 && t[1] == "take" && t[2] == "ree" && has_null_idx(t[8]) {
+        return " kf:take-ree-null-index";
+    }
+    if t.len() == 9 && t[1] == "take" && t[2] == "dunion" && has_null_idx(t[8]) {
+        return " kf:take-dense-union-null-index";
+    }
+    if t.len() == 7 && t[1] == "nullif" && ["ree", "sunion", "dunion"].contains(&t[2]) && t[6].contains('1') {
+        return " kf:nullif-no-validity-layout";
+    }
+    if t.len() == 5 && t[1] == "concat" && t[2] == "ree" && t[4].split(';').all(|a| a.ends_with(":-")) && t[4].contains(';') {
+        return " kf:concat-ree-all-empty";
+    }
     // known finding: zip of two byte-view scalars rewrites the buffer index of an INLINE falsy view
     // (5..12 bytes: content corrupted) when the falsy scalar is a slice of an array owning data buffers
     if t.len() == 7 && (t[1] == "zip" || t[1] == "merge") && (t[2] == "sv" || t[2] == "bv") && answer.starts_with("BAD:GARBLED") {
@@ -1924,6 +2093,129 @@ fn answer_tags(line: &str, answer: &str) -> &'static str {
         }
     }
     ""
+}
+
+
+/// a fixed, seed-independent block of boundary cases run at the start of every `gen` run:
+/// every type × every kernel at lengths around 8 / 64, first/last/alternating selections, exact
+/// threshold selectivities, chunk-of-8 interleaves, extreme shifts, slices at both ends, and
+/// coalescer histories that fill the buffer exactly, bypass in all three ways, sit on the 1/16
+/// sparse-copy threshold and cross the 8 KiB view block
+fn fixed_block() -> Vec<(String, String)> {
+    let mut out: Vec<(String, String)> = vec![];
+    let rows_of = |ty: &str, n: usize, salt: usize| -> Vec<Row> {
+        (0..n).map(|i| if (i + salt) % 5 == 3 { None } else if ty == "bool" { Some(((i + salt) % 2) as u32) } else { Some((((i + salt) * 7 + 1) % 61) as u32) }).collect()
+    };
+    let mask_of = |n: usize, kind: usize| -> Vec<Option<bool>> {
+        (0..n)
+            .map(|i| match kind {
+                0 => Some(i == 0),
+                1 => Some(i + 1 == n),
+                2 => Some(i % 2 == 0),
+                3 => Some(i != 0),
+                4 => if i % 4 == 1 { None } else { Some(i % 2 == 0) },
+                _ => Some(i * 10 < n * 8), // exactly 0.8 when n is a multiple of 5
+            })
+            .collect()
+    };
+    for (ti, ty) in ALL_TYPES.iter().enumerate() {
+        let narrow = *ty == "dicti8" || *ty == "dictu8";
+        for (ni, n) in [1usize, 8, 9, 10, 64, 65].iter().enumerate() {
+            let rows = rows_of(ty, *n, ti);
+            for kind in 0..6 {
+                let var = (ti + ni + kind) % 5;
+                let off = if (ni + kind) % 2 == 0 { 0 } else { 3 };
+                out.push((
+                    format!("C03 filter {} {} {} {} {} {}", ty, var, off, show_rows(&rows), (kind * 3) % 8, show_mask(&mask_of(*n, kind))),
+                    format!("fixed op:filter ty:{} fvar:{} fx:mask{} nt", ty, var, kind),
+                ));
+            }
+        }
+        let n = 9;
+        let rows = rows_of(ty, n, ti + 1);
+        for (k, idx) in ["0", "8", "8,8,0", "-", "n,0,n8", "0,1,2,3,4,5,6,7,8", "8,7,6,5,4,3,2,1,0"].iter().enumerate() {
+            let ity = IDX_TYPES[(ti + k) % IDX_TYPES.len()].0;
+            out.push((format!("C03 take {} {} {} {} {} {} {}", ty, ity, k % 2, (k * 2) % 5, show_rows(&rows), k % 3, idx), format!("fixed op:take ty:{} ity:{} fx:take{} nt", ty, ity, k)));
+        }
+        let (a, b) = (rows_of(ty, 3, ti), rows_of(ty, 5, ti + 2));
+        for var in 0..2 {
+            out.push((format!("C03 concat {} {} 0:{};2:-;1:{};0:-", ty, var, show_rows(&a), show_rows(&b)), format!("fixed op:concat ty:{} cvar:{} nt", ty, var)));
+        }
+        out.push((format!("C03 concat {} 0 0:-;3:-", ty), format!("fixed op:concat ty:{} fx:all-empty", ty)));
+        for m in [1usize, 7, 8, 9, 16, 17] {
+            let pairs: Vec<String> = (0..m).map(|i| if i % 3 == 0 { format!("0.{}", i % 3) } else { format!("1.{}", (i * 2) % 5) }).collect();
+            out.push((format!("C03 interleave {} 1:{};0:{} {}", ty, show_rows(&a), show_rows(&b), pairs.join(",")), format!("fixed op:interleave ty:{} fx:pairs{} nt", ty, m)));
+        }
+        for k in [1i64, -1, 8, -8, 9, -9, i64::MIN] {
+            out.push((format!("C03 shift {} 2 {} {}", ty, show_rows(&rows), k), format!("fixed op:shift ty:{} nt", ty)));
+        }
+        for (a0, len) in [(0usize, 0usize), (0, 9), (1, 8), (8, 1), (9, 0), (4, 3)] {
+            out.push((format!("C03 slice {} 5 {} {} {}", ty, show_rows(&rows), a0, len), format!("fixed op:slice ty:{} nt", ty)));
+        }
+        if !narrow {
+            let m8 = show_mask(&mask_of(8, 2));
+            let r8 = rows_of(ty, 8, ti);
+            let r8b = rows_of(ty, 8, ti + 3);
+            for (tr, fa) in [
+                (format!("s:{}", show_row(&r8[0])), format!("s:{}", show_row(&r8b[1]))),
+                (format!("s:{}", show_row(&r8[1])), format!("a:3:{}", show_rows(&r8b))),
+                (format!("a:0:{}", show_rows(&r8)), "s:n".to_string()),
+                (format!("a:1:{}", show_rows(&r8)), format!("a:2:{}", show_rows(&r8b))),
+            ] {
+                out.push((format!("C03 zip {} 1 {} {} {}", ty, m8, tr, fa), format!("fixed op:zip ty:{} nt", ty)));
+            }
+            out.push((format!("C03 merge {} 0 {} a:1:{} a:0:{}", ty, m8, show_rows(&r8[..4]), show_rows(&r8b[..4])), format!("fixed op:merge ty:{} nt", ty)));
+            out.push((format!("C03 mergen {} 0:{};1:{} 0,0,1,n,1,0,1,1", ty, show_rows(&a), show_rows(&b)), format!("fixed op:mergen ty:{} nt", ty)));
+            out.push((format!("C03 mergen {} 0:{};1:{} 1,1,0,0,0,1", ty, show_rows(&a), show_rows(&b)), format!("fixed op:mergen ty:{} fx:usize-indices nt", ty)));
+        }
+        out.push((format!("C03 nullif {} 1 {} 2 {}", ty, show_rows(&rows), show_mask(&mask_of(9, 4))), format!("fixed op:nullif ty:{} nt", ty)));
+        if dict_kind(ty).is_some() || *ty == "dictp" {
+            out.push((format!("C03 gc {} 0 {}", ty, show_rows(&rows_of(ty, 20, ti))), format!("fixed op:gc ty:{} nt", ty)));
+            out.push((format!("C03 gc {} 4 {}", ty, show_rows(&rows_of(ty, 7, ti))), format!("fixed op:gc ty:{} nt", ty)));
+        }
+    }
+    // coalescer
+    for ty in ["i32", "sv", "utf8", "dict", "i32+utf8", "dec", "i32+sv"] {
+        for target in [1usize, 2, 8, 64] {
+            let r = |n: usize, s: usize| show_rows(&rows_of(ty, n, s));
+            // exact fills and off-by-one around the target
+            out.push((
+                format!("C03 coalesce {} {} - p:0:{};q;p:1:{};p:0:{};q;p:3:{};n;q;x;n;n;n;x;q", ty, target, r(target, 0), r(target.saturating_sub(1), 1), r(1, 2), r(target + 1, 3)),
+                format!("fixed op:coalesce cty:{} fx:exact-fill nt", ty),
+            ));
+            // the three bypass cases, then a limit change in mid-history
+            let lim = target / 2;
+            out.push((
+                format!(
+                    "C03 coalesce {} {} {} p:0:{};q;p:0:{};p:0:{};p:0:{};q;p:0:{};p:0:{};q;l:-;p:0:{};l:0;p:0:{};x;q",
+                    ty, target, lim, r(lim + 1, 0), r(lim.max(1), 1), r(1, 2), r(lim + 2, 3), r(1, 4), r(lim + target + 1, 5), r(target + 3, 6), r(2, 7)
+                ),
+                format!("fixed op:coalesce cty:{} fx:bypass-cases nt", ty),
+            ));
+            // sparse fused copy: selected = len/16 exactly and one more; fitting the buffer exactly and not
+            for k in [1usize, 2] {
+                let n = 16 * k.max(target.min(4));
+                let sel = n / 16;
+                let mk = |cnt: usize| -> String { show_mask(&(0..n).map(|i| Some(i % 16 == 5 && i / 16 < cnt || (cnt > n / 16 && i == n - 1))).collect::<Vec<_>>()) };
+                out.push((
+                    format!(
+                        "C03 coalesce {} {} - p:0:{};f:0:{}:0:{};q;f:3:{}:5:{};q;f:0:{}:0:{};x;n;n;n",
+                        ty, target, r(target.saturating_sub(sel).min(target - 1).max(0), 0), r(n, 1), mk(sel), r(n, 2), mk(sel + 1), r(n, 3), mk(sel)
+                    ),
+                    format!("fixed op:coalesce cty:{} fx:sparse-threshold nt", ty),
+                ));
+            }
+        }
+    }
+    // view blocks: dozens of ~300-byte strings in one output batch (8 KiB and 16 KiB block boundaries)
+    let huge: Vec<Row> = (0..70).map(|i| if i % 9 == 4 { None } else { Some([7u32, 15, 23, 31, 39, 47, 55][i % 7]) }).collect();
+    for target in [64usize, 70] {
+        out.push((
+            format!("C03 coalesce sv {} - p:0:{};p:2:{};f:0:{}:0:{};x;n;n;n;n", target, show_rows(&huge), show_rows(&huge[..50]), show_rows(&huge), show_mask(&(0..70).map(|i| Some(i % 2 == 0)).collect::<Vec<_>>())),
+            "fixed op:coalesce cty:sv fx:view-block-8k nt".to_string(),
+        ));
+    }
+    out
 }
 
 fn main() {
@@ -1941,8 +2233,14 @@ fn main() {
     } else {
         let mut rng = Rng::new(args.seed ^ 0xC03);
         let n = n_cases(&args, 12000, 200000);
-        for _ in 0..n {
-            let (line, tags) = gen_case(&mut rng);
+        let mut fixed = if args.cases.is_some() { vec![] } else { fixed_block() };
+        fixed.reverse();
+        let total = n + fixed.len();
+        for _ in 0..total {
+            let (line, tags) = match fixed.pop() {
+                Some(x) => x,
+                None => gen_case(&mut rng),
+            };
             let before = INVALID_RESULTS.load(std::sync::atomic::Ordering::Relaxed);
             let a = run_case(&line);
             let mut tags = tags;
